@@ -13,9 +13,10 @@ TOL_RESTORE = Fr(1, 10 ** 15)
 
 
 def _flag(name):
-    """repair flag of the model (coq/Model/C08_DiffLayout.v): after notes/C08-k2-jac-step.patch the J output of the
-    K=2 routine is computed with the K=1 step, whose squares do not fit 53 bits - J is then compared with the
-    rounding allowance also on the exact stream"""
+    """version flag of the model (coq/Model/C08_DiffLayout.v; both true = the code as it is since 59fd5d3 / 41b038a).
+    c08_fix_k2jac: the J output of the K=2 routine is the K=1 Jacobian (first-order step, whose squares do not fit 53
+    bits: J of K=2 is compared with the rounding allowance also on the exact stream - and bit for bit with the J of a
+    dr<1> call).  c08_fix_restore: the model hands the arguments back bit-identical on every stream."""
     import re
     try:
         src = open(os.path.join(vlib.COQ, "Model", "C08_DiffLayout.v")).read()
@@ -96,11 +97,12 @@ def _parse_res(line, num):
         return t[p[0] - 1]
     assert nx() == "V"
     r["V"] = [num(nx()) for _ in range(int(nx()))]
-    assert nx() == "J"
-    n = int(nx())
-    if n < 0:
-        r["J"] = None
-    else:
+
+    def parse_J():
+        assert nx() == "J"
+        n = int(nx())
+        if n < 0:
+            return None
         cols = []
         for _ in range(n):
             tag = nx()
@@ -108,7 +110,8 @@ def _parse_res(line, num):
                 cols.append(None)
             else:
                 cols.append([num(nx()) for _ in range(int(nx()))])
-        r["J"] = cols
+        return cols
+    r["J"] = parse_J()
     assert nx() == "H"
     n = int(nx())
     if n < 0:
@@ -124,6 +127,10 @@ def _parse_res(line, num):
     for _ in range(int(nx())):
         assert nx() == "X"
         r["A"].append([num(nx()) for _ in range(int(nx()))])
+    if p[0] < len(t):
+        # implementation only, K = 2: the J of a dr<1> call on the same map and point (diff_impl.hpp:79)
+        assert nx() == "K1J"
+        r["K1J"] = parse_J()
     return r
 
 
@@ -211,9 +218,11 @@ def _analyse(order, cases, impl, mres, have_model):
     problems, failures, samples = [], [], []
     strata = {}
     stats = {"exact_stream_bit_exact_cases": 0, "general_stream_cases": 0, "max_relerr_J_K1": 0.0, "max_relerr_J_K2": 0.0,
-             "max_relerr_H": 0.0, "max_restore_rel": 0.0, "model_vs_impl_entries": 0}
+             "max_relerr_H": 0.0, "max_restore_rel": 0.0, "model_vs_impl_entries": 0,
+             "exact_stream_K2_J_entries": 0, "exact_stream_K2_J_entries_bit_exact": 0, "k2_jac_vs_k1_jac_entries": 0, "k2_jac_bit_identical_to_k1_jac_cases": 0}
     model = True if have_model else None
     fixj = _flag("c08_fix_k2jac")
+    fixr = _flag("c08_fix_restore")
 
     def bump(k, n=1):
         strata[k] = strata.get(k, 0) + n
@@ -283,6 +292,9 @@ def _analyse(order, cases, impl, mres, have_model):
                     for cc in range(len(r["J"])):
                         for j in range(len(r["J"][cc])):
                             ok &= cmp("J", r["J"][cc][j], m["J"][cc][j], 0 if (ex and not (K == 2 and fixj)) else 64 * U * o["fabs"] / steps1[cc], [j, cc])
+                            if ex and K == 2 and fixj:
+                                stats["exact_stream_K2_J_entries"] += 1
+                                stats["exact_stream_K2_J_entries_bit_exact"] += int(r["J"][cc][j] is not None and r["J"][cc][j] == m["J"][cc][j])
             if r["H"] is not None and m["H"] is not None:
                 if len(r["H"]) != len(m["H"]) or any(len(a) != len(b) for a, b in zip(r["H"], m["H"])):
                     fail(dict(base, check="model_vs_impl", what="H-shape"))
@@ -300,7 +312,7 @@ def _analyse(order, cases, impl, mres, have_model):
                         continue
                     mx = max([abs(v) for v in c["args"][i][1]] + [Fr(0)])
                     for k in range(len(ma)):
-                        ok &= cmp("args_after", ra[k], ma[k], 0 if ex else TOL_RESTORE * mx, [i, k])
+                        ok &= cmp("args_after", ra[k], ma[k], 0 if (ex or fixr) else TOL_RESTORE * mx, [i, k])
             if ex and ok:
                 stats["exact_stream_bit_exact_cases"] += 1
             if not ex:
@@ -330,14 +342,37 @@ def _analyse(order, cases, impl, mres, have_model):
                         stats[key] = max(stats[key], float(rel))
                         if rel > TOL_J and (worst is None or rel > worst[0]):
                             # is the error the first-order truncation term h/2 * f'' of the step actually used?
+                            # (diagnosis only; for K = 2 also against the second-order step the routine used for J
+                            # before 41b038a)
                             pred = o["J"][j][cc] + steps1[cc] / 2 * o["H"][j][cc][cc]
-                            cause = "step-truncation" if _dist(r["J"][cc][j], pred) <= Fr(1, 10 ** 6) * scaleJ else "other"
+                            pred2 = o["J"][j][cc] + stepsH[cc] / 2 * o["H"][j][cc][cc]
+                            cause = ("step-truncation" if _dist(r["J"][cc][j], pred) <= Fr(1, 10 ** 6) * scaleJ else
+                                     "second-order-step-truncation" if K == 2 and _dist(r["J"][cc][j], pred2) <= Fr(1, 10 ** 6) * scaleJ
+                                     else "other")
                             worst = (rel, cc, j, cause)
                 if worst is not None:
                     rel, cc, j, cause = worst
                     fail(dict(base, check="accuracy_J", cause=(f"k{K}-" + cause), pos=[j, cc], relerr=float(rel),
                               got=_flt(r["J"][cc][j]), want=float(o["J"][j][cc]), step=float(steps1[cc])))
         if K == 2:
+            # diff_impl.hpp:79 (theorem C08_k2_jac_is_k1_jac): the J of the K = 2 routine is the J of the K = 1 routine on
+            # the same map and point - the SAME floating-point operations, so the two must agree bit for bit
+            j1 = r.get("K1J")
+            if j1 is None or r["J"] is None:
+                fail(dict(base, check="k2_jac_is_k1_jac", what="missing", have_K1J=j1 is not None, have_J=r["J"] is not None))
+            elif len(j1) != len(r["J"]) or any(len(a) != len(b) for a, b in zip(j1, r["J"])):
+                fail(dict(base, check="k2_jac_is_k1_jac", what="shape", k1=[len(j1)], k2=[len(r["J"])]))
+            else:
+                bad = [(cc, j) for cc in range(len(j1)) for j in range(len(j1[cc]))
+                       if j1[cc][j] is None or r["J"][cc][j] is None or j1[cc][j] != r["J"][cc][j]]
+                stats["k2_jac_vs_k1_jac_entries"] += sum(len(col) for col in j1)
+                if bad:
+                    cc, j = bad[0]
+                    fail(dict(base, check="k2_jac_is_k1_jac", pos=[j, cc], n_entries_differ=len(bad),
+                              J_from_dr2=_flt(r["J"][cc][j]), J_from_dr1=_flt(j1[cc][j]),
+                              true_J=float(o["J"][j][cc]) if cc < nx and j < ny else None))
+                else:
+                    stats["k2_jac_bit_identical_to_k1_jac_cases"] += 1
             if r["H"] is None or len(r["H"]) != nx or any(len(row) != nx * ny for row in r["H"]):
                 fail(dict(base, check="H_shape", want=[nx, nx * ny]))
             else:
@@ -468,7 +503,8 @@ TB = [
     "modelled, not verified: the callable f (pure function of its arguments), the Manifold operations rplus / rminus / dof of the argument and result types (abstract in the theorems; C06/C07 cover them), Eigen's dense assignment, std::tuple / std::apply plumbing (wrt_copy_if_const aliasing is modelled by caller_view)",
 ]
 ASSUME = [
-    "layout / subset / restore theorems: exact group model (x (+) h e (+) -h e = x) or the repaired code; floating-point perturbation only for translation-like coordinates (standard model, restore_float_bound); the 1e-15 restore clause on non-commutative group arguments is decided by the harness (known finding C08-restore-drift)",
+    "layout / subset / restore theorems: hypothesis current_code o = the model instance carries the version flags recorded in coq/Model/C08_DiffLayout.v (c08_fix_restore = c08_fix_k2jac = true: restore from a saved copy, commit 59fd5d3; J of K=2 from the K=1 routine, commit 41b038a); NO assumption on the group operations (rplus may round, need not be invertible). That the flags describe /repo is checked every run: model vs implementation bit for bit (arguments after the call on every stream and every argument kind incl. SO3/SE2/Bundle, J of dr<2> == J of dr<1>)",
+    "restore_float_bound / restore_k1_within_1e15 / restore_float_bound_n (x+h-h in floating point) are kept as analysis of the inverse-perturbation scheme; the current code does not rely on them",
     "accuracy theorems are per matrix entry for a scalar coordinate function of the step (each J/H entry is one by jac_entry_is_quotient / jac_entry_error) with explicit smoothness class: |f''| <= 100, evaluation error <= 2^-46 (first), mixed third derivatives <= 10, numerator error <= 4*2^-46 (second); relative means relative to max(1, |true value|)",
     "autodiff / ceres modes are absent from this sandbox build (static_assert branches); not modelled beyond 'ill-formed', not exercised",
     "K = 2 on group-valued or vector-valued results: the documented note says scalar functions only; the code and the model handle any ny, the harness exercises ny <= 3",
@@ -487,7 +523,7 @@ CFG = dict(
 
 TEXT = dict(
     technique="Coq proof over a hand-written executable model of diff_impl.hpp (Engine B) + Coquelicot error analysis; model tied to /repo by running the extracted model against the real diff::dr (bit-exact stream) and by a closed-form-derivative oracle harness",
-    text="Machine-checked theorems (Coq 8.16) about a line-by-line model of dr_numerical / dr / the index-subset overload, for ALL argument lists (any number and mix of static/dynamic Manifold kinds), callables and duplicate-free index lists: every J column and H cell is characterised (column offset_i + j holds the forward quotient with the code's step rule; H(offset_i0+k0, j*nx+offset_i1+k1) holds the second difference), the cell addressing is a bijection onto block j / entry (r,c) of the documented stacked layout, subset derivatives are exactly the selected columns / cells of the full ones, the argument tuple is handed back unchanged (exact group or repaired code), Analytic / Default pass the callable's jacobian()/hessian() through verbatim, K=0 returns the value only. Coquelicot: forward-difference error <= h*M2/2 + 2*eps_f/h (+ step rounding), <= 1e-4 relative with the code's step 2^-26*|x| on the property's function class; second-difference bound <= 5e-2 with step 2^-13*|x|; Schwarz for the order of the mixed partial; x+h-h perturbation <= 3u|x|. Two statements are REFUTED for the current code (theorems with witnesses, confirmed on the real code, repairs in notes/): the J output of the K=2 routine misses 1e-4 (step 2^-13*|x|), and arguments of non-commutative group type are restored only to ~1e-15..1e-14 relative.",
-    note="Trusted: Coq kernel, extraction (ExtrOcamlBasic only), the transcription (validated every run: 3 000+ cases over all kind pairs / const masks / index subsets / K, bit-exact on the exact-arithmetic stream), the closed-form oracle harness. Accuracy clause proved per entry for an explicit smoothness class, not for 'every smooth f'. Autodiff/Ceres modes absent from the sandbox. Known findings: C08-k2-jac-step, C08-restore-drift.",
+    text="Machine-checked theorems (Coq 8.16) about a line-by-line model of dr_numerical / dr / the index-subset overload, for ALL argument lists (any number and mix of static/dynamic Manifold kinds), callables and duplicate-free index lists: every J column and H cell is characterised (column offset_i + j holds the forward quotient with the code's step rule; H(offset_i0+k0, j*nx+offset_i1+k1) holds the second difference), the cell addressing is a bijection onto block j / entry (r,c) of the documented stacked layout, subset derivatives are exactly the selected columns / cells of the full ones, the argument tuple is handed back unchanged - bit-identical, whatever rplus does (the code restores from saved copies; no exact-group hypothesis) -, the J of the K=2 routine is the J of the K=1 routine, Analytic / Default pass the callable's jacobian()/hessian() through verbatim, K=0 returns the value only. Coquelicot: forward-difference error <= h*M2/2 + 2*eps_f/h (+ step rounding), <= 1e-4 relative with the code's step 2^-26*|x| on the property's function class; second-difference bound <= 5e-2 with step 2^-13*|x|; Schwarz for the order of the mixed partial; x+h-h perturbation <= 3u|x|. The J output of the K=2 routine meets the 1e-4 clause with the first-order step (k2_jac_entry_error, k2_jac_accuracy_current). Two former findings (J of K=2 formed with step 2^-13*|x|; arguments of non-commutative group type restored only to ~1e-15..1e-14) are fixed in /repo (41b038a, 59fd5d3); their refutations remain as historical lemmas over the parametrised model (fix flags false), outside the property theorems.",
+    note="Trusted: Coq kernel, extraction (ExtrOcamlBasic only), the transcription (validated every run: 3 000+ cases over all kind pairs / const masks / index subsets / K, bit-exact on the exact-arithmetic stream), the closed-form oracle harness. Accuracy clause proved per entry for an explicit smoothness class, not for 'every smooth f'. Autodiff/Ceres modes absent from the sandbox. No open findings (C08-k2-jac-step, C08-restore-drift: fixed, listed as such in known_findings.d/C08.jsonl, suppress nothing).",
     design_ref="DESIGN.md section 5 C08; notes/C08.md",
 )
